@@ -17,7 +17,9 @@ SPEC = dict(
          "os.* call sites routed through the zzfs shim (translator/fsinstrument, via -overlay): no fault; every single "
          "operation of the observed trace failing (+ temp-file write failing); killed (freeze) before every mutating "
          "operation without and (sampled in quick) with a preceding fault. Observed: error/path result, existence of every "
-         "*.zoekt/.meta, index.ReadMetadataPath of every shard. non-trivial = a fault, a kill or a defect in the inputs.",
+         "*.zoekt/.meta, index.ReadMetadataPath of every shard. non-trivial = a fault, a kill or a defect in the inputs. "
+         "Additionally 9 runs of the REAL COMMAND (test binary re-executing main()): exit status + stdout for merge ok / missing input / "
+         "os.Exit(137) before each mutation / explode with a blocked rename, checked by the Go oracle.",
     trusted_base=["correspondence harness harness/overlay/cmd/zoekt-merge-index/zz_verif_c35_test.go (generator, abstraction of "
                   "file names to model paths, Go oracle)",
                   "translator/fsinstrument (call-site rewriter + zzfs shim): kill = freeze of all later intercepted operations; "
